@@ -84,9 +84,14 @@ func (r *lockRoles) readFromTimerSlotZA(v ssa.Value, depth int, seen map[ssa.Val
 			if r.readFromTimerSlotZA(x.Tuple, depth, seen) {
 				return true
 			}
+		case *ssa.UnOp:
+			// the timer in the box a typed slot points to: `*slot.Load()`
+			if x.Op == token.MUL && r.readFromTimerSlotZA(x.X, depth, seen) {
+				return true
+			}
 		case *ssa.Call:
-			switch ir.CalleeFullName(x) {
-			case "(*sync/atomic.Value).Load", "(*sync/atomic.Value).Swap":
+			switch slotMethodVV(x) {
+			case "Load", "Swap":
 				if _, isSlot := fieldAddrOf(x.Call.Args[0], r.timerF); isSlot {
 					return true
 				}
